@@ -31,7 +31,6 @@ Definition c19_flat_roundtrip := flat_roundtrip_b.
 Definition c19_generate_c (f : fs) (fl : flags) (p : string) : result := run_generate_c f fl p.
 Definition c19_generate_c_ok := generate_c_ok_b.
 Definition c19_spec_eff_c := spec_eff_c.
-Definition c19_kf_cfile_prevalidated := kf_cfile_prevalidated.
 Definition c19_build (f : fs) : result := run_build f.
 Definition c19_build_ok := build_ok_b.
 Definition c19_spec_eff_build := spec_eff_build.
@@ -44,4 +43,4 @@ Extraction "tt_c19.ml" c19_save c19_load c19_preserved c19_roundtrip c19_lib_ok
   c19_spec_invalid c19_generate_ok c19_init_ok
   c19_init_target c19_fs_get c19_norm
   c19_flat_json c19_from_flat c19_from_file c19_flat_roundtrip c19_generate_c c19_generate_c_ok c19_spec_eff_c
-  c19_kf_cfile_prevalidated c19_build c19_build_ok c19_spec_eff_build c19_build_invalid c19_kf_build_fallback.
+  c19_build c19_build_ok c19_spec_eff_build c19_build_invalid c19_kf_build_fallback.
